@@ -55,10 +55,13 @@ def run_mutant(m, wdir, repo, samlcheck):
     if rc != 0:
         res['state'] = 'nocompile'
         return res
-    rc, out = sh(['go', 'vet', './...'], cwd=wdir, env=repo_env())
-    res['vet'] = 'ok' if rc == 0 else 'flagged'
-    rc, out = sh(['go', 'test', '-vet=off', '-timeout', '120s', './...'], cwd=wdir, env=repo_env(), timeout=300)
-    res['state'] = 'survived' if rc == 0 else 'killed'
+    if m.get('_known_state'):
+        res['state'] = m['_known_state']
+    else:
+        rc, out = sh(['go', 'vet', './...'], cwd=wdir, env=repo_env())
+        res['vet'] = 'ok' if rc == 0 else 'flagged'
+        rc, out = sh(['go', 'test', '-vet=off', '-timeout', '120s', './...'], cwd=wdir, env=repo_env(), timeout=300)
+        res['state'] = 'survived' if rc == 0 else 'killed'
     rc, out = sh([samlcheck, '-property', 'all', '-repo', wdir, '-verif', VERIF, '-no-evidence'], env=checker_env(), timeout=300)
     if rc == 2:
         res['check'] = 'invalid'
@@ -82,6 +85,7 @@ def main():
     ap.add_argument('--ops', default='')
     ap.add_argument('--ids', default='')
     ap.add_argument('--limit', type=int, default=0)
+    ap.add_argument('--recheck', default='', help='results.jsonl of an earlier sweep: only its silent survivors are re-analysed (tests are not re-run)')
     a = ap.parse_args()
     os.makedirs(a.out, exist_ok=True)
     mutgen = os.path.join(SCRATCH, 'mutgen')
@@ -101,6 +105,18 @@ def main():
         muts = [m for m in muts if m['op'] in a.ops.split(',')]
     if a.ids:
         muts = [m for m in muts if m['id'] in a.ids.split(',')]
+    if a.recheck:
+        prev = {}
+        for l in open(a.recheck):
+            r = json.loads(l)
+            prev[(r['file'], r['start'], r['end'], r['repl'])] = r
+        keep = []
+        for m in muts:
+            r = prev.get((m['file'], m['start'], m['end'], m['repl']))
+            if r and r.get('state') == 'survived' and r.get('check') == 'silent':
+                m['_known_state'] = 'survived'
+                keep.append(m)
+        muts = keep
     if a.limit:
         muts = muts[:a.limit]
     print(f'{len(muts)} mutants, {a.jobs} workers', flush=True)
